@@ -69,7 +69,7 @@ def gen_cases(ctx) -> List[Dict[str, Any]]:
     # the body ends normally (or by exception) and the enclosing deadline fires while the shutdown is in progress
     for b in (["ignore_sigterm", "sigterm_slow:0.5", "well_behaved"] if ctx.tier == "quick"
               else ["ignore_sigterm", "sigterm_slow:0.5", "sigterm_slow:1.4", "well_behaved", "never_read", "flood"]):
-        for e in ("deadline_during_exit", "exception_deadline_during_exit"):
+        for e in ("deadline_during_exit", "exception_deadline_during_exit", "native_deadline_during_exit"):
             for lead in ([0.3] if ctx.tier == "quick" else [0.05, 0.3, 0.8]):
                 cases.append({"behaviour": b, "exit": e, "moment": "after_response", "cancel_after": 1.2, "lead": lead})
     # the same through the wrapper APIs (StdioTransport, connect_to_server/MCPClient)
